@@ -758,7 +758,20 @@ func (g *gen) stmt(lvl int) string {
 func (g *gen) shareStmt(lvl int) string {
 	in := ind(lvl)
 	e := g.fresh("err")
-	switch g.t.Draw(9) {
+	switch g.t.Draw(11) {
+	case 10: // a Go module with working state of its own (scanners, buffers): well-formed and malformed documents
+		doc := []string{"`{\"a\": [1, 2, {\"b\": null}]}`", "`[1, 2,, 3]`", "`{\"a\": }`", "`  [ true , false ]  `", "`{\"k\": \"v\"`", "`\"s\"`"}[g.t.Draw(6)]
+		fn := []string{"Valid", "Compact", "Indent"}[g.t.Draw(3)]
+		call := "import(\"json\")." + fn + "(" + doc
+		if fn == "Indent" {
+			call += ", \"\", \" \""
+		} else if fn == "Compact" {
+			call += ", false"
+		}
+		call += ")"
+		return in + "try {\n" + in + "\tlog(string(" + call + "))\n" + in + "} catch " + e + " {\n" + in + "\tlog(\"json:\", " + e + ".Message)\n" + in + "}\n"
+	case 9: // a container attribute of a builtin module written and read directly through import expressions
+		return in + "import(\"host\").arr[" + fmt.Sprint(g.t.Draw(3)) + "] = len(WID) * " + fmt.Sprint(2+g.t.Draw(9)) + "\n" + in + "import(\"host\").nested.arr[0] = WID\n" + in + "log(import(\"host\").arr, import(\"host\").nested.arr[0])\n"
 	case 8: // a writable value made from a constant: the constant itself must stay what it was
 		b, lit := g.fresh("b"), g.strLit()
 		return in + b + " := bytes(" + lit + ")\n" + in + "if len(" + b + ") > 0 { " + b + "[0] = 65 + len(WID) }\n" + in + "log(string(" + b + "), " + lit + ")\n"
@@ -825,7 +838,7 @@ func (g *gen) importStmt(lvl int) string {
 		}
 		if g.t.Bool(1, 2) {
 			s += ind(lvl) + name + ".arr[" + fmt.Sprint(g.t.Draw(3)) + "] = " + g.exprNoVars(tInt, 1) + "\n"
-			s += ind(lvl) + "log(" + name + ".arr, " + name + ".map, " + name + ".nzero, " + name + ".str)\n"
+			s += ind(lvl) + "log(" + name + ".arr, " + name + ".map, " + name + ".nzero, " + name + ".str, " + name + ".arrsum())\n"
 		}
 		if g.t.Bool(1, 3) {
 			// a SyncMap attribute: read, written and read again (every VM has its own copy)
